@@ -311,74 +311,123 @@ theorem action_rejecting (cs : Chunks) (v : Verdict) (hv : Rejecting v) :
   · have := (hc.2 he).1
     simp [he, this]
 
-/-- **C09 (exactness).** For EVERY peer stream — any bytes, any length, cut into chunks anywhere, ending anywhere —
-every rejecting verdict, and every later course of events (peer chunks, target chunks, either side closing, each
-processed to quiescence):
-* if the server relays (`web`), the bytes written to the target are exactly the peer's stream: the consumed first
-  packet, then what was already waiting, then every later peer chunk up to the first close — nothing added, dropped
-  or reordered; and the bytes written to the peer are exactly the target's chunks up to the first close;
-* otherwise the action is `close` and nothing at all is written to either side (and no target is dialled). -/
+/-- what `goWeb` does at its two fault points: when the redirect target cannot be dialled it closes the peer conn; when
+the first write to the target fails it closes the half-open target conn and the peer conn (and returns) -/
+theorem gen_goweb_errors :
+    goWebDialErrClosesPeer = true ∧ goWebWriteErrClosesPeer = true ∧ goWebWriteErrClosesTarget = true := by decide
+
 theorem run_of_web (cs : Chunks) (v : Verdict) (evs : List Ev) (h : decideAction (readFirstPacket cs).1 v = .web) :
-    run cs v evs = (.web, evs.foldl relayStep ⟨true, goWebWrite (readFirstPacket cs).1.data :: (readFirstPacket cs).2, [], true⟩) := by
-  unfold run; simp only; rw [h]
+    run cs v .up evs = (.web, evs.foldl relayStep
+      ⟨true, goWebWrite (readFirstPacket cs).1.data :: (readFirstPacket cs).2, [], true, false, false⟩) := by
+  unfold run runWith; simp only; rw [h]
 
-theorem run_of_close (cs : Chunks) (v : Verdict) (evs : List Ev) (h : decideAction (readFirstPacket cs).1 v = .close) :
-    run cs v evs = (.close, ⟨false, [], [], false⟩) := by
-  unfold run; simp only; rw [h]
+theorem run_of_close (cs : Chunks) (v : Verdict) (tg : Target) (evs : List Ev) (h : decideAction (readFirstPacket cs).1 v = .close) :
+    run cs v tg evs = (.close, ⟨false, [], [], false, true, false⟩) := by
+  unfold run runWith; simp only; rw [h]
 
-theorem c09_exact (cs : Chunks) (v : Verdict) (hv : Rejecting v) (evs : List Ev) :
-    ((run cs v evs).1 = .web ∧
-        (run cs v evs).2.toTarget.flatten = cs.flatten ++ (peerChunks (live evs)).flatten ∧
-        (run cs v evs).2.toPeer = targetChunks (live evs) ∧ (run cs v evs).2.dialed = true) ∨
-    ((run cs v evs).1 = .close ∧ (run cs v evs).2.toTarget = [] ∧ (run cs v evs).2.toPeer = [] ∧
-        (run cs v evs).2.dialed = false) := by
+theorem run_dial_fails (cs : Chunks) (v : Verdict) (evs : List Ev) (h : decideAction (readFirstPacket cs).1 v = .web) :
+    run cs v .dialFails evs = (.close, ⟨true, [], [], false, true, false⟩) := by
+  unfold run runWith; simp only; rw [h, gen_goweb_errors.1]; rfl
+
+theorem run_write_fails (cs : Chunks) (v : Verdict) (evs : List Ev) (h : decideAction (readFirstPacket cs).1 v = .web) :
+    run cs v .writeFails evs = (.close, ⟨true, [], [], false, true, true⟩) := by
+  unfold run runWith; simp only; rw [h, gen_goweb_errors.2.1, gen_goweb_errors.2.2]; rfl
+
+/-- **C09 (exactness).** For EVERY peer stream — any bytes, any length, cut into chunks anywhere, ending anywhere —
+every rejecting verdict, every behaviour of the redirect target (up, refusing the dial, failing the first write) and
+every later course of events (peer chunks, target chunks, either side ending its stream, each processed to quiescence):
+* if the server relays (`web`; the target is up), the bytes written to the target are exactly the peer's stream: the
+  consumed first packet, then what was already waiting, then every later peer chunk up to the first EOF — nothing added,
+  dropped or reordered; and the bytes written to the peer are exactly the target's chunks up to the first EOF;
+* otherwise the action is `close`: nothing at all is written to either side, the peer conn IS closed (never "neither
+  relayed nor closed"); a target is dialled only if it then turns out to be unavailable, and a half-open target conn
+  is closed too. -/
+theorem c09_exact (cs : Chunks) (v : Verdict) (hv : Rejecting v) (tg : Target) (evs : List Ev) :
+    (tg = .up ∧ (run cs v tg evs).1 = .web ∧
+        (run cs v tg evs).2.toTarget.flatten = cs.flatten ++ (peerChunks (live evs)).flatten ∧
+        (run cs v tg evs).2.toPeer = targetChunks (live evs) ∧ (run cs v tg evs).2.dialed = true) ∨
+    ((run cs v tg evs).1 = .close ∧ (run cs v tg evs).2.toTarget = [] ∧ (run cs v tg evs).2.toPeer = [] ∧
+        (run cs v tg evs).2.peerClosed = true ∧
+        ((run cs v tg evs).2.dialed = true → tg ≠ .up ∧ (tg = .writeFails → (run cs v tg evs).2.targetClosed = true))) := by
   have ha := action_rejecting cs v hv
   have hfl := readFirstPacket_flat cs
   have hcons := fpFlat_conserve cs.flatten
   by_cases he : (fpFlat cs.flatten).1.err = .readErr
   · rw [if_pos he] at ha
-    right; rw [run_of_close cs v evs ha]; exact ⟨rfl, rfl, rfl, rfl⟩
+    right; rw [run_of_close cs v tg evs ha]; simp
   · rw [if_neg he] at ha
-    left; rw [run_of_web cs v evs ha]
-    obtain ⟨h1, h2, h3⟩ := relay_fold evs ⟨true, goWebWrite (readFirstPacket cs).1.data :: (readFirstPacket cs).2, [], true⟩ rfl
-    refine ⟨rfl, ?_, ?_, h3⟩
-    · rw [h1, goWebWrite_id, List.flatten_append, List.flatten_cons, hfl.1, hfl.2, hcons]
-    · rw [h2]; rfl
+    cases tg with
+    | up =>
+      left; rw [run_of_web cs v evs ha]
+      obtain ⟨h1, h2, h3⟩ := relay_fold evs ⟨true, goWebWrite (readFirstPacket cs).1.data :: (readFirstPacket cs).2, [], true, false, false⟩ rfl
+      refine ⟨rfl, rfl, ?_, ?_, h3⟩
+      · rw [h1, goWebWrite_id, List.flatten_append, List.flatten_cons, hfl.1, hfl.2, hcons]
+      · rw [h2]; rfl
+    | dialFails => right; rw [run_dial_fails cs v evs ha]; simp
+    | writeFails => right; rw [run_write_fails cs v evs ha]; simp
 
-example : (run [[0x99, 1], [2]] .authFail [.target [7], .peer [3], .peerEOF, .target [8]]).2 =
-    ⟨true, [[0x99], [1], [2], [3]], [[7]], false⟩ := by decide
+example : (run [[0x99, 1], [2]] .authFail .up [.target [7], .peer [3], .peerEOF, .target [8]]).2 =
+    ⟨true, [[0x99], [1], [2], [3]], [[7]], false, true, true⟩ := by decide
 
-/-- **C09 (close only when the stream ran out).** For a rejected peer the server closes without relaying exactly when
-the peer's stream ended (EOF or 15 s of silence) inside the first record / request: then the reader had consumed every
-byte the peer sent, fewer than 3000, and was still waiting for more. -/
-theorem c09_close_only_iff_ran_out (cs : Chunks) (v : Verdict) (hv : Rejecting v) (evs : List Ev) :
-    (run cs v evs).1 = .close ↔ (fpFlat cs.flatten).1.err = .readErr := by
+/-- **C09 (close only when the stream ran out or the target is unavailable).** For a rejected peer the server closes
+without relaying exactly when the peer's stream ended (EOF or 15 s of silence) inside the first record / request —
+then the reader had consumed every byte the peer sent, fewer than 3000, and was still waiting for more — or the
+redirect target could not be reached. -/
+theorem c09_close_only_iff_ran_out (cs : Chunks) (v : Verdict) (hv : Rejecting v) (tg : Target) (evs : List Ev) :
+    (run cs v tg evs).1 = .close ↔ ((fpFlat cs.flatten).1.err = .readErr ∨ tg ≠ .up) := by
   have ha := action_rejecting cs v hv
   by_cases he : (fpFlat cs.flatten).1.err = .readErr
-  · rw [if_pos he] at ha; rw [run_of_close cs v evs ha]; simp [he]
-  · rw [if_neg he] at ha; rw [run_of_web cs v evs ha]; simp [he]
+  · rw [if_pos he] at ha; rw [run_of_close cs v tg evs ha]; simp [he]
+  · rw [if_neg he] at ha
+    cases tg with
+    | up => rw [run_of_web cs v evs ha]; simp [he]
+    | dialFails => rw [run_dial_fails cs v evs ha]; simp
+    | writeFails => rw [run_write_fails cs v evs ha]; simp
 
 theorem c09_ran_out_consumed_all (s : Bytes) (h : (fpFlat s).1.err = .readErr) :
     (fpFlat s).1.data = s ∧ (fpFlat s).2 = [] ∧ s.length < 3000 :=
   let ⟨a, b, c, _⟩ := (fpFlat_close s).1 h
   ⟨a, b, c⟩
 
+/-- **C09 (redirect target unavailable: the peer is closed, never left hanging).** Whatever the peer sent and however a
+rejected connection got as far as `goWeb`: if the redirect target cannot be dialled, or takes the connection and fails
+the first write, the peer conn is closed without a byte having been written to it, and the half-open target conn is
+closed as well — "relayed or just closed", nothing in between. -/
+theorem c09_target_unavailable (cs : Chunks) (v : Verdict) (hv : Rejecting v) (tg : Target) (htg : tg ≠ .up) (evs : List Ev) :
+    (run cs v tg evs).1 = .close ∧ (run cs v tg evs).2.peerClosed = true ∧ (run cs v tg evs).2.toPeer = [] ∧
+    (run cs v tg evs).2.toTarget = [] ∧
+    ((run cs v tg evs).2.dialed = true → tg = .writeFails → (run cs v tg evs).2.targetClosed = true) := by
+  rcases c09_exact cs v hv tg evs with h | h
+  · exact absurd h.1 htg
+  · exact ⟨h.1, h.2.2.2.1, h.2.2.1, h.2.1, fun hd hw => (h.2.2.2.2 hd).2 hw⟩
+
+/-- the pinned code (`goWeb` just `return`s at both fault points — the three facts are `false`): the connection of a
+peer that sent an unrecognisable first byte is neither relayed nor closed when the target cannot be dialled, and when
+the first write fails the target conn is left open as well -/
+theorem c09_unavailable_pinned_witness :
+    runWith false false false [[0x99, 1, 2]] .authFail .dialFails [] = (.drop, ⟨true, [], [], false, false, false⟩) ∧
+    runWith false false false [[0x99, 1, 2]] .authFail .writeFails [] = (.drop, ⟨true, [], [], false, false, false⟩) := by
+  decide
+
+example : run [[0x99, 1, 2]] .authFail .dialFails [.peer [1]] = (.close, ⟨true, [], [], false, true, false⟩) ∧
+    run [[0x99, 1, 2]] .authFail .writeFails [] = (.close, ⟨true, [], [], false, true, true⟩) := by decide
+
 /-- **C09 (prefix stability).** If the first-packet reader comes to a verdict on a stream `p` (complete record or
 request, oversize header, over-long line, unrecognisable first byte), then for every continuation `t` and every
-chunking of `p ++ t` the server relays, having consumed exactly the same first packet. -/
+chunking of `p ++ t` the server relays (to a target that is up), having consumed exactly the same first packet. -/
 theorem c09_prefix_stable (p t : Bytes) (cs : Chunks) (v : Verdict) (hv : Rejecting v) (evs : List Ev)
     (hp : (fpFlat p).1.err ≠ .readErr) (hcs : cs.flatten = p ++ t) :
-    (run cs v evs).1 = .web ∧ (readFirstPacket cs).1 = (fpFlat p).1 := by
+    (run cs v .up evs).1 = .web ∧ (readFirstPacket cs).1 = (fpFlat p).1 := by
   have hst := fpFlat_stable p t hp
   have hne : ¬ (fpFlat cs.flatten).1.err = .readErr := by rw [hcs, hst]; exact hp
   refine ⟨?_, ?_⟩
-  · rcases c09_exact cs v hv evs with h | h
-    · exact h.1
-    · exact absurd ((c09_close_only_iff_ran_out cs v hv evs).1 h.1) hne
+  · rcases c09_exact cs v hv .up evs with h | h
+    · exact h.2.1
+    · exact absurd ((c09_close_only_iff_ran_out cs v hv .up evs).1 h.1) (by simp [hne])
   · rw [(readFirstPacket_flat cs).1, hcs, hst]
 
 /-- **C09 (complete first packets are always relayed).** For a rejected peer, on ANY chunking, the server relays
-(never "close only") as soon as the peer's stream `s`
+(never "close only" — the redirect target being up) as soon as the peer's stream `s`
 (a) starts with a byte other than 0x16 / 0x47, or
 (b) starts with a 0x16 record header declaring more than fits the 3000-byte buffer, or
 (c) contains a complete 0x16 record, or
@@ -386,16 +435,16 @@ theorem c09_prefix_stable (p t : Bytes) (cs : Chunks) (v : Verdict) (hv : Reject
 (e) extends any stream on which the reader already came to a verdict (e.g. a request up to its empty line). -/
 theorem c09_complete_redirects (cs : Chunks) (v : Verdict) (hv : Rejecting v) (evs : List Ev) :
     let s := cs.flatten
-    ((∃ b t, s = b :: t ∧ b ≠ 22 ∧ b ≠ 71) → (run cs v evs).1 = .web) ∧
-    ((∃ t, s = 22 :: t ∧ 5 ≤ s.length ∧ 3000 < specLen s + 5) → (run cs v evs).1 = .web) ∧
-    ((∃ t, s = 22 :: t ∧ 5 + specLen s ≤ s.length) → (run cs v evs).1 = .web) ∧
-    (3000 ≤ s.length → (run cs v evs).1 = .web) ∧
-    (∀ p t, s = p ++ t → (fpFlat p).1.err ≠ .readErr → (run cs v evs).1 = .web) := by
-  have key : ¬ (fpFlat cs.flatten).1.err = .readErr → (run cs v evs).1 = .web := by
+    ((∃ b t, s = b :: t ∧ b ≠ 22 ∧ b ≠ 71) → (run cs v .up evs).1 = .web) ∧
+    ((∃ t, s = 22 :: t ∧ 5 ≤ s.length ∧ 3000 < specLen s + 5) → (run cs v .up evs).1 = .web) ∧
+    ((∃ t, s = 22 :: t ∧ 5 + specLen s ≤ s.length) → (run cs v .up evs).1 = .web) ∧
+    (3000 ≤ s.length → (run cs v .up evs).1 = .web) ∧
+    (∀ p t, s = p ++ t → (fpFlat p).1.err ≠ .readErr → (run cs v .up evs).1 = .web) := by
+  have key : ¬ (fpFlat cs.flatten).1.err = .readErr → (run cs v .up evs).1 = .web := by
     intro hne
-    rcases c09_exact cs v hv evs with h | h
-    · exact h.1
-    · exact absurd ((c09_close_only_iff_ran_out cs v hv evs).1 h.1) hne
+    rcases c09_exact cs v hv .up evs with h | h
+    · exact h.2.1
+    · exact absurd ((c09_close_only_iff_ran_out cs v hv .up evs).1 h.1) (by simp [hne])
   refine ⟨?_, ?_, ?_, ?_, ?_⟩
   · rintro ⟨b, t, hs, h22, h71⟩
     apply key; rw [hs]; simp [fpFlat, h22, h71]
@@ -426,54 +475,95 @@ example : (fpFlat [71, 69, 84, 32, 47, 13, 10, 72, 58, 97, 13, 10, 13, 10, 66]).
 example : (fpFlat [71, 10, 10]).1.err = .readErr := by decide
 example : (readFirstPacket [[22, 3], [1, 0, 2, 9], [9, 7]]).1 = ⟨[22, 3, 1, 0, 2, 9, 9], .tls, true, .ok, false⟩ := by decide
 
+/-! ### "the peer receives exactly the bytes the target replies with" — and the peer's half close
+
+`c09_exact` delivers the target's chunks *up to the first EOF of either side*.  The property says more: the peer
+receives the bytes the target replies with — all of them, for all peer streams and all response scripts of the target,
+including a peer that sends its request, ends its sending direction (TCP FIN, `shutdown(SHUT_WR)`) and then reads the
+answer.  The code does not do that: `common.Copy` closes BOTH conns as soon as ONE direction sees EOF
+(`relayStep`), so whatever the target sends after the peer's FIN is lost. -/
+
+/-- the full statement: whenever the server relays, the peer is sent exactly what the target sends before the target
+ends its own stream -/
+def c09_reply_full : Prop :=
+  ∀ (cs : Chunks) (v : Verdict) (evs : List Ev), Rejecting v → (run cs v .up evs).1 = .web →
+    (run cs v .up evs).2.toPeer = targetReply evs
+
+/-- **C09 (reply, partial).** The full statement holds for every course of events in which the peer does not end its
+sending direction before the target has ended its stream (it may of course end it afterwards, or never). -/
+theorem c09_reply_partial (cs : Chunks) (v : Verdict) (hv : Rejecting v) (evs : List Ev)
+    (hnh : peerEndsFirst evs = false) (hw : (run cs v .up evs).1 = .web) :
+    (run cs v .up evs).2.toPeer = targetReply evs := by
+  rcases c09_exact cs v hv .up evs with h | h
+  · rw [h.2.2.2.1, live_reply evs hnh]
+  · rw [h.1] at hw; simp at hw
+
+/-- **C09 (reply, witness).** The full statement is FALSE of the code: an unrecognisable first byte, then the peer's
+FIN, then a one-byte reply of the target — the reply is not delivered (and both conns are closed by then). -/
+theorem c09_reply_witness : ¬ c09_reply_full := by
+  intro h
+  have := h [[0x99]] .authFail [.peerEOF, .target [7]] (by simp [Rejecting]) (by decide)
+  revert this
+  decide
+
+example : (run [[0x99]] .authFail .up [.peerEOF, .target [7]]).2 = ⟨true, [[0x99]], [], false, true, true⟩ ∧
+    targetReply [.peerEOF, .target [7]] = [[7]] := by decide
+
+theorem actionOfCode_ne_handshake (n : Nat) : actionOfCode n ≠ .handshake := by
+  unfold actionOfCode; split <;> simp
+
+theorem runWith_handshake (a b c : Bool) (cs : Chunks) (v : Verdict) (tg : Target) (evs : List Ev) :
+    (runWith a b c cs v tg evs).1 = .handshake ↔ decideAction (readFirstPacket cs).1 v = .handshake := by
+  unfold runWith; simp only
+  cases hda : decideAction (readFirstPacket cs).1 v <;> cases tg <;> cases a <;> cases b <;> simp
+
 /-- **C09 (silence).** The server answers in its own voice (`finishHandshake`) only for a complete first packet of an
 admin or an admitted proxy user.  On every other path — any stream, chunking, verdict and later events — each chunk
 written to the peer is one of the target's chunks, in order (or nothing is written at all); structurally: `goWeb` and
 `dispatchConnection` contain no `conn.Write`, and nothing before the last rejection branch (outside the admin branch)
 calls `finishHandshake`. -/
-theorem c09_silent (cs : Chunks) (v : Verdict) (evs : List Ev) :
-    ((run cs v evs).1 = .handshake ↔ (readFirstPacket cs).1.err = .ok ∧ (v = .admin ∨ v = .proxy)) ∧
-    ((run cs v evs).1 ≠ .handshake →
-        (run cs v evs).2.toPeer = targetChunks (live evs) ∨ (run cs v evs).2.toPeer = []) ∧
+theorem c09_silent (cs : Chunks) (v : Verdict) (tg : Target) (evs : List Ev) :
+    ((run cs v tg evs).1 = .handshake ↔ (readFirstPacket cs).1.err = .ok ∧ (v = .admin ∨ v = .proxy)) ∧
+    ((run cs v tg evs).1 ≠ .handshake →
+        (run cs v tg evs).2.toPeer = targetChunks (live evs) ∨ (run cs v tg evs).2.toPeer = []) ∧
     (goWebPeerWrites = 0 ∧ dcPeerWrites = 0 ∧ dcQuietBeforeRejections = true ∧ dcAdminReturns = true) := by
-  obtain ⟨_, h1, h2, h3, h4, h5, h6, _⟩ := gen_actions
-  have hs : dcSessErrAction = 3 := by decide
   have hd : ∀ o : Out, decideAction o v = .handshake ↔ o.err = .ok ∧ (v = .admin ∨ v = .proxy) := by
     intro o
     unfold decideAction
-    rw [h1, h2, h3, h4, h5, h6, hs]
     by_cases he : o.err = .ok
-    · cases v <;> simp [he, actionOfCode]
-    · by_cases hr : o.redirOnErr = true <;> simp [he, hr, actionOfCode]
-  have hrun : (run cs v evs).1 = decideAction (readFirstPacket cs).1 v := by
-    unfold run; simp only
-    cases decideAction (readFirstPacket cs).1 v <;> rfl
+    · cases v <;> simp [he, actionOfCode_ne_handshake]
+    · by_cases hr : o.redirOnErr = true <;> simp [he, hr, actionOfCode_ne_handshake]
   refine ⟨?_, ?_, by decide⟩
-  · rw [hrun]; exact hd _
+  · unfold run; rw [runWith_handshake]; exact hd _
   · intro _
     cases hda : decideAction (readFirstPacket cs).1 v with
     | web =>
-      left
-      rw [run_of_web cs v evs hda]
-      have := (relay_fold evs ⟨true, goWebWrite (readFirstPacket cs).1.data :: (readFirstPacket cs).2, [], true⟩ rfl).2.1
-      rw [this]; rfl
+      cases tg with
+      | up =>
+        left
+        rw [run_of_web cs v evs hda]
+        have := (relay_fold evs ⟨true, goWebWrite (readFirstPacket cs).1.data :: (readFirstPacket cs).2, [], true, false, false⟩ rfl).2.1
+        rw [this]; rfl
+      | dialFails => right; unfold run runWith; simp only; rw [hda]
+      | writeFails => right; unfold run runWith; simp only; rw [hda]
     | _ =>
       right
-      unfold run; simp only; rw [hda]
+      unfold run runWith; simp only; rw [hda]
 
 /-- **C09 (total — as far as this model goes).** `readFirstPacket`'s model is a total function with an explicit outcome
 for every stream (no buffer index can leave `[0, 3000]`: `c09_consumed_bounded`), the decision for a rejected peer is always
-`web` or `close` — never "neither relayed nor closed", never an unclassified branch — and the `recover()` guards that
-turn out-of-range slicing in the hand-written ClientHello parsers into an error are in place (`gen_recover`). -/
-theorem c09_total (cs : Chunks) (v : Verdict) (hv : Rejecting v) (evs : List Ev) :
-    ((run cs v evs).1 = .web ∨ (run cs v evs).1 = .close) ∧
+`web` or `close` — whatever the redirect target does: never "neither relayed nor closed", never an unclassified branch —
+and the `recover()` guards that turn out-of-range slicing in the hand-written ClientHello parsers into an error are in
+place (`gen_recover`). -/
+theorem c09_total (cs : Chunks) (v : Verdict) (hv : Rejecting v) (tg : Target) (evs : List Ev) :
+    ((run cs v tg evs).1 = .web ∨ ((run cs v tg evs).1 = .close ∧ (run cs v tg evs).2.peerClosed = true)) ∧
     (readFirstPacket cs).1.data.length ≤ 3000 ∧
     (recover_parseKeyShare = true ∧ recover_parseClientHello = true ∧
       (recover_parseExtensions = true ∨ parseExtensionsOnlyUnderParseClientHello = true)) := by
   refine ⟨?_, ?_, gen_recover⟩
-  · rcases c09_exact cs v hv evs with h | h
-    · exact Or.inl h.1
-    · exact Or.inr h.1
+  · rcases c09_exact cs v hv tg evs with h | h
+    · exact Or.inl h.2.1
+    · exact Or.inr ⟨h.1, h.2.2.2.1⟩
   · rw [(readFirstPacket_flat cs).1]; exact fpFlat_bound _
 
 end C09
@@ -483,3 +573,6 @@ end C09
 #print axioms C09.c09_complete_redirects
 #print axioms C09.c09_silent
 #print axioms C09.c09_total
+#print axioms C09.c09_target_unavailable
+#print axioms C09.c09_reply_partial
+#print axioms C09.c09_reply_witness
